@@ -6,6 +6,14 @@ var stdAssume = []string{
 }
 
 var props = map[string]*propCfg{
+	"C02": {
+		Engine: "parsesim", Level: "exploration",
+		QuickRuns: 40000, ThoroughRuns: 5000000, QuickSeconds: 45, ThoroughSeconds: 1500, TimeoutS: 20,
+		Rule: "one run = a generated world of 1-6 template files under one of 7 delimiter configurations (default, [[ ]], single-byte, multi-byte UTF-8, action and comment delimiters sharing a first byte, custom comment only, long), one file mutated (truncate at a byte offset, delete/duplicate/swap chunks, splice lexer-relevant fragments inside actions, replace bytes; or one of 8 ground-truth structural mistakes), a loader fault plan for the files reached through extends/import, then Set.Parse and Set.GetTemplate for every file, each call in its own testing/synctest bubble inside an isolated worker process. Judged: worker survives (a lexer-goroutine panic kills it), no panic escapes, (template, nil) or (_, error), no goroutine left blocked after the call, syntax errors name a file of the set and a line inside it, ground-truth mistakes are rejected, no hang (per-run watchdog). Every run is non-trivial (it parses); distinct = hash of (delimiters, mutated source, world size, faults).",
+		Assumptions: append([]string{"which strings are tried is input generation; the simulator contributes the crash boundary (worker process), the goroutine-lifecycle oracle (synctest bubble), the watchdog and the loader-fault dimension", "sources are capped at 4 KiB"}, stdAssume...),
+		Real:        []string{"lexer (goroutine + channel)", "parser", "Set.Parse / GetTemplate / extends+import resolution", "InMemLoader", "default cache"},
+		Stub:        []string{"SimLoader (fault injection)", "testing/synctest bubble as goroutine-leak detector", "worker-process isolation + watchdog"},
+	},
 	"C11": {
 		Engine: "schedsim", Level: "exploration",
 		QuickRuns: 6000, ThoroughRuns: 1000000, RaceQuickRuns: 1500, RaceThoroughRuns: 150000, QuickSeconds: 40, ThoroughSeconds: 900, TimeoutS: 40,
